@@ -8,6 +8,7 @@ import forsys.virtual_edges as ve
 import forsys.borders as borders
 from forsys.exceptions import BigEdgesBadlyCreated
 import warnings
+import os
 @dataclass
 class ForceMatrix:
     """
@@ -256,6 +257,8 @@ class ForceMatrix:
         mprime = mprime.astype(np.float64)
         # flatten b to convert it to a vector. Rounding is to keep old behavior (not sure if it's useful)
         b = b.astype(np.float64).flatten().round(3)
+        if os.environ.get("FORSYS_VERIF") == "1":
+            self._verif_fallback = False
         try:
             if solver_method == "lsq_linear":
                 solutions = scop.lsq_linear(mprime,
@@ -315,7 +318,17 @@ class ForceMatrix:
                     raise ValueError("Negative values detected")
         except (ValueError, np.linalg.LinAlgError, TypeError) as e:
             warnings.warn(f"Numerically solving due to the following error: {e}")
+            if os.environ.get("FORSYS_VERIF") == "1":
+                self._verif_fallback = True
             xres, _ = scop.nnls(mprime, b, maxiter=kwargs.get("nnls_max_iter"))
+
+        if os.environ.get("FORSYS_VERIF") == "1":
+            # verification hook: what was solved, the raw solution (with multiplier) and the path taken
+            self._verif_record = {"mprime": np.array(mprime, dtype=float),
+                                  "b": np.array(b, dtype=float),
+                                  "xres": np.array(xres, dtype=float),
+                                  "path": "nnls-fallback" if self._verif_fallback else
+                                          {"lsq_linear": "lsq_linear", "lsq": "lsq"}.get(solver_method, "inv")}
 
         if kwargs.get("verbose", False):
             print("Residuals ||AX - B||: ", np.linalg.norm(mprime @ xres - b))
